@@ -170,6 +170,25 @@ def oracle(ctx, budget=1, replay=None, hints=None):
     for _ in range(150 * budget):
         n += 1
         cx, cy, rad = float(ctx.rng.randint(50, 150)), float(ctx.rng.randint(50, 150)), float(ctx.rng.randint(5, 30))
+        small = ctx.rng.random() < 0.3
+        if small:
+            # small arcs near the origin, numbers below 1 in the short spellings a slicer / CNC post-processor writes (".5", "-.25", "+.75", "1.")
+            cx, cy, rad = ctx.rng.randint(4, 12) / 4.0, ctx.rng.randint(4, 12) / 4.0, ctx.rng.choice([0.25, 0.5, 0.75])
+
+        def sp(v):
+            t = '%g' % v
+            if not small:
+                return t
+            k = ctx.rng.random()
+            if k < 0.6 and t.startswith('0.'):
+                t = t[1:]
+            elif k < 0.6 and t.startswith('-0.'):
+                t = '-' + t[2:]
+            elif k < 0.8 and '.' not in t:
+                t = t + '.'
+            if ctx.rng.random() < 0.2 and not t.startswith('-'):
+                t = '+' + t
+            return t
         side = ctx.rng.randint(0, 3)
         x0, y0 = [(cx - rad, cy), (cx + rad, cy), (cx, cy - rad), (cx, cy + rad)][side]
         i, j = cx - x0, cy - y0
@@ -180,11 +199,11 @@ def oracle(ctx, budget=1, replay=None, hints=None):
         mx, my = cx + rad * math.cos(qa), cy + rad * math.sin(qa)
         words = []
         if i != 0 or ctx.rng.random() < 0.4:
-            words.append('I%g' % i)
+            words.append('I' + sp(i))
         if j != 0 or ctx.rng.random() < 0.4:
-            words.append('J%g' % j)
-        cmd = '%s X%g Y%g %s' % ('G3' if ccw else 'G2', x1, y1, ' '.join(words))
-        with_region = ctx.rng.random() < 0.6
+            words.append('J' + sp(j))
+        cmd = '%s X%s Y%s %s' % ('G3' if ccw else 'G2', sp(x1), sp(y1), ' '.join(words))
+        with_region = ctx.rng.random() < 0.6 and not small
         hreg = impl.new_handlers([('rect', 'r', mx - 1.5, my - 1.5, mx + 1.5, my + 1.5)] if with_region else [])
         impl.run(hreg, ['G28', 'G1 X%g Y%g F3000' % (x0, y0)])
         res = impl.run(hreg, [cmd])
@@ -195,4 +214,20 @@ def oracle(ctx, budget=1, replay=None, hints=None):
         elif (pos.X_AXIS.current, pos.Y_AXIS.current) != (x1, y1):
             fails.append(dict(what='after %r from (%g,%g) the tracked position is (%r,%r), not the arc end (%g,%g)' % (cmd, x0, y0, pos.X_AXIS.current, pos.Y_AXIS.current, x1, y1),
                               signature='C16:arc-not-tracked', case=dict(start=[x0, y0], command=cmd, regions=with_region)))
+    # arcs that start where a coordinate is exactly 0 (right after homing, along the bed edge): 0 is a position like any other
+    for (pre, cmd, reg, end) in [([], 'G2 X20 Y0 I10 J0', (10, 10), (20.0, 0.0)), ([], 'G3 X0 Y20 I0 J10', (10, 10), (0.0, 20.0)),
+                                 (['G1 X0 Y30 F3000'], 'G2 X0 Y50 I0 J10', (-10, 40), (0.0, 50.0)), (['G1 X30 Y0 F3000'], 'G3 X50 Y0 I10 J0', (40, -10), (50.0, 0.0)),
+                                 (['G1 X0 Y30 F3000'], 'G3 X0 Y50 J10', (10, 40), (0.0, 50.0)), (['G1 X30 Y0 F3000'], 'G2 X50 Y0 I10', (40, 10), (50.0, 0.0))]:
+        for with_region in (True, False):
+            n += 1
+            hreg = impl.new_handlers([('rect', 'r', reg[0] - 1.5, reg[1] - 1.5, reg[0] + 1.5, reg[1] + 1.5)] if with_region else [])
+            impl.run(hreg, ['G28'] + pre)
+            res = impl.run(hreg, [cmd])
+            pos = hreg.state.position
+            if with_region and res[0][1] != 'suppress':
+                fails.append(dict(what='%r after %r passes 1.5 units deep through a region and is not excluded (%s)' % (cmd, ['G28'] + pre, res[0][1]),
+                                  signature='C16:arc-not-excluded', case=dict(commands=['G28'] + pre + [cmd], region=[reg[0] - 1.5, reg[1] - 1.5, reg[0] + 1.5, reg[1] + 1.5])))
+            elif not with_region and (pos.X_AXIS.current, pos.Y_AXIS.current) != end:
+                fails.append(dict(what='after %r the tracked position is (%r,%r), not the arc end %r' % (cmd, pos.X_AXIS.current, pos.Y_AXIS.current, end),
+                                  signature='C16:arc-not-tracked', case=dict(commands=['G28'] + pre + [cmd])))
     return dict(evaluations=n, failures=fails[:10], samples=[], distribution=dict(arcs=2500 * budget, radius_form=1500 * budget, crossing=300 * budget, axis_aligned=150 * budget))
